@@ -436,6 +436,19 @@ pub fn conformant_tag(kind: u32, key: u64, n: usize, sel: u32) -> Vec<u8> {
 /// A conformant header tag of `kind` with marker field bytes and in-range
 /// enumerated fields. `n` = number of information requests.
 pub fn conformant_hdr_tag(kind: u32, key: u64, n: usize, sel: u32) -> Vec<u8> {
+    let mut t = conformant_hdr_tag_markers(kind, key, n, sel);
+    // one tag in four: every free 32-bit field is 0 or 8 (bits of the key) - data
+    // that looks like an end tag (type 0, size 8) or like zero filler
+    if (sel >> 8) & 3 == 1 && matches!(kind, 1 | 2 | 3 | 5 | 8 | 9) {
+        let words = (t.len() - 8) / 4;
+        for j in 0..words {
+            put32(&mut t, 8 + 4 * j, [0u32, 8][(key >> (j % 48) & 1) as usize]);
+        }
+    }
+    t
+}
+
+fn conformant_hdr_tag_markers(kind: u32, key: u64, n: usize, sel: u32) -> Vec<u8> {
     let flags = (sel & 1) as u16;
     match kind {
         0 => hdr_tag(0, 0, &[]),
